@@ -84,9 +84,13 @@ impl binrw::BinRead for Mso {
 
             let msg: Vec<u8> = binrw::helpers::until_eof(reader, endian, ())?;
 
+            // The codepage selected within the name is still in effect for the text that
+            // follows it: decode the message as a whole, and the name on its own only to find
+            // out where the text starts in the decoded string.
+            let whole = [name.as_slice(), msg.as_slice()].concat();
             let name = codepages::to_lossy_string(strip_trailing_nul(&name));
-            let msg = codepages::to_lossy_string(strip_trailing_nul(&msg));
-            (name.len() as u8, format!("{name}{msg}"))
+            let msg = codepages::to_lossy_string(strip_trailing_nul(&whole));
+            (name.len() as u8, msg.to_string())
         } else {
             let msg: Vec<u8> = binrw::helpers::until_eof(reader, endian, ())?;
             (
